@@ -83,6 +83,9 @@ def run(prog, rep, tier):
                     viol = True
             except Inconclusive:
                 pass
+        if getattr(f, "cached", False) and summ.ret is not None and not (isinstance(summ.ret, OW.OV) and summ.ret.labels == {OW.IMM}):
+            rep.bad("M4.return", fwhere(f), "%s is memoised and returns a mutable object: every caller receives the same array, so editing one result corrupts later calls" % f.name)
+            viol = True
         # M4
         if summ.ret is not None and f.name != "__init__":
             n_ret += 1
